@@ -248,7 +248,8 @@ ALSO = {
     # the three date-like types satisfy the same characterisation of truncation / rounding / last day / month arithmetic
     'C17': lambda c, r: c['prop'] == 'C09' or (c['prop'] in ('C10', 'C11') and ('timestamp::Timestamp' in r['root'] or 'oracle::Date' in r['root'])),
     # a run of blanks is rendered with its length: the lexer's blank rules
-    'C04': lambda c, r: c['prop'] == 'C19' and 'blank' in c['clause'].lower(),
+    'C04': lambda c, r: (c['prop'] == 'C19' and ('blank' in c['clause'].lower() or 'style' in c['clause'].lower()))
+    or (c['prop'] == 'C01' and c['root'] == 'common::the_day_of_year'),
     # the text channel of the decoder ends in the parser's assembly step
     'C15': lambda c, r: c['prop'] == 'C05' and 'TryFrom<format::NaiveDateTime>' in r['root'],
     # adding months relies on the month lengths (leap rule, month-length table)
